@@ -8,7 +8,7 @@ from symx.engine import site, smax
 ID = "C12"
 MODULES = ["hta.trace_analysis"]
 MUST_NOT_RAISE = True
-BUDGET_S = {"quick": 420, "thorough": 3000}
+BUDGET_S = {"quick": 420, "thorough": 1200}
 BOUNDS = {
     "quick": "1 rank; 0..2 ProfilerStep annotations (disjoint, any gaps) + every word of 1..2 further items over {host "
              "operator, linked launch/kernel pair, unlinked kernel}, 3 steps + one launch/kernel pair; all ts/dur symbolic Int (events anywhere: before, "
